@@ -118,12 +118,12 @@ def cout(o):
         return "(txt %s %s)" % (czl(ids), cbool(h))
     if k == "item":
         e = o[1]
-        return "(itm %s %s)" % (zint(e.get("id", 999999)), centry(e))
+        return "(itm %s %s)" % (zint(e.get("id", 999)), centry(e))
     raise ValueError(o)
 
 
 def ids_of(lb):
-    return [e.get("id", 999999) if isinstance(e, dict) else 999998 for e in list.__iter__(lb)]
+    return [e.get("id", 999) if isinstance(e, dict) else 998 for e in list.__iter__(lb)]
 
 
 def skel(lb):
@@ -142,7 +142,7 @@ def dump(lb):
 
 
 def cdump(d):
-    recs = clist(["(R %s %s)" % (zint(e.get("id", 999999)), centry(e)) for e in d["recs"]])
+    recs = clist(["(R %s %s)" % (zint(e.get("id", 999)), centry(e)) for e in d["recs"]])
     chs = clist(["(%s, %s)" % (code(k), cdump(c)) for k, c in sorted(d["chapters"].items(), key=lambda kv: CODE[kv[0]])])
     return "(LB %s %s %s %s %s)" % (recs, zint(d["buff"]), chs, copt(d["header"], cnames), cbool(bool(d["logh"])))
 
@@ -192,6 +192,7 @@ class Driver(object):
         self.ref = Ref(uniform)
         self.viol = []         # (what, signature)
         self.nrec = 0
+        self.cut = False       # a chapter of different length raised during a deletion (outside the hypothesis)
 
     def bad(self, what, signature=None):
         self.viol.append((what, signature))
@@ -343,7 +344,10 @@ class Driver(object):
             except Exception as e:  # noqa
                 want_exc = type(e).__name__
             if not ref.uniform and raised and not want_exc:
-                # chapters of different lengths: outside the hypothesis; resynchronise the reference
+                # chapters of different lengths: outside the hypothesis.  The half-done state depends on the
+                # order of the chapters dict, which is no part of the property: the history is cut before this operation.
+                # With at most one chapter per level there is no order, and the half-done state is compared.
+                self.cut = max(len(c.chapters) for _, c in walk(lb)) > 1
                 ref.ids = ids_of(lb)
                 return
             if want_exc:
@@ -376,15 +380,17 @@ class Driver(object):
 
 
 def run_history(tools, ops, uniform=True):
-    """-> (list of (out, skeleton) per op, final dump, per-step violations)"""
+    """-> (operations actually used, list of (out, skeleton) per op, final dump, per-step violations)"""
     d = Driver(tools, uniform)
     steps, viols = [], []
-    for op in ops:
+    for i, op in enumerate(ops):
         n0 = len(d.viol)
         o = d.do(op)
+        if d.cut:
+            return run_history(tools, ops[:i], uniform)
         steps.append((o, skel(d.lb)))
         viols.append(d.viol[n0:])
-    return steps, dump(d.lb), viols
+    return list(ops), steps, dump(d.lb), viols
 
 
 # ----------------------------------------------------------------------------
@@ -450,7 +456,7 @@ def trie_cases(run, tools, kind, depth, subset=None, prefix_len=2):
                     o = ("record", shift(o[1], nrec))
                     nrec += 1
                 ops.append(o)
-            steps, _, viols = run_history(tools, ops)
+            _, steps, _, viols = run_history(tools, ops)
             first_new = 0
             if prev is not None:
                 while first_new < depth and prev[first_new] == path[first_new]:
@@ -591,7 +597,7 @@ def rand_history(rng, uniform):
 
 
 def hist_case(run, tools, ops, uniform, kind, terms, cases, sample=False):
-    steps, fin, viols = run_history(tools, ops, uniform)
+    ops, steps, fin, viols = run_history(tools, ops, uniform)
     case = {"kind": kind, "uniform_chapters": uniform, "ops": [repr(o) for o in ops]}
     run.note_case((kind, repr(ops)), nontrivial=any(o[0] == "record" for o in ops), sample=case if sample else None)
     for i, vs in enumerate(viols):
@@ -795,7 +801,7 @@ def main(run):
     rng = run.rng
 
     # ---- known finding: replay the witness on the implementation on every run ----
-    steps, _, viols = run_history(tools, WITNESS)
+    _, steps, _, viols = run_history(tools, WITNESS)
     seen = False
     for i, vs in enumerate(viols):
         for what, sig in vs:
